@@ -27,6 +27,7 @@ Still assumed: the Lexer contract (proved for Cursor::advance in unit `lexer`), 
 peek_n / peek_token_n / peek_data_n (look-ahead on a clone of the lexer; results unconstrained), rowan.
 """
 from limits import UNIT as LIMITS_UNIT
+from lexer_next import TOK_OK, NEXT_POST, NEW_POST   # the Lexer contract: PROVED for the real Lexer::next / new in unit lexer_next; assumed here (same text)
 
 PM = "crates/apollo-parser/src/parser/mod.rs"
 TY = "crates/apollo-parser/src/parser/grammar/ty.rs"
@@ -75,14 +76,13 @@ impl Error {
 pub mod crate_error { pub type Error = super::Error; }
 
 // Lexer: ASSUMED contract of `<Lexer as Iterator>::next` as seen by the parser.
-//   * every item carries the next piece of the remaining text, in order (C03, first sentence -- not proved);
+//   (the three marked pieces are imported from unit `lexer_next`, where they are PROVED for the real Lexer::next / Lexer::new)
+//   * every item carries the next piece of the remaining text, in order;
 //   * a measure strictly decreases with every item (the lexer consumes >= 1 char per item or finishes);
 //   * a limit error carries no text, and after it the lexer yields nothing (proved for the real
 //     Lexer::next in unit `limits`: limit_item_finishes, finished_is_final);
 //   * None is returned only after the limit was hit or after the EOF token (which comes last, when the text is used up).
-/// what the lexer guarantees about a token's text as far as the parser relies on it (proved for Cursor::advance in unit `lexer`):
-/// the EOF token is empty, a `{` token is the text "{"
-pub open spec fn tok_ok(t: Token) -> bool { (t.kind is Eof ==> t.data@ =~= Seq::<char>::empty()) && (t.kind is LCurly ==> t.data@ =~= seq!['{']) }
+@@TOK_OK@@
 pub struct LexState { pub rest: Seq<char>, pub fuel: nat, pub limited: bool, pub done: bool }
 pub struct Lexer<'a> { pub limit_tracker: LimitTracker, pub st: Ghost<LexState>, pub p: core::marker::PhantomData<&'a ()> }
 impl<'a> Lexer<'a> {
@@ -92,22 +92,13 @@ impl<'a> Lexer<'a> {
     /// the EOF token has been handed out (after which the lexer yields nothing)
     pub open spec fn done(&self) -> bool { self.st@.done }
     #[verifier::external_body]
-    pub fn new(input: &'a str) -> (r: Self) ensures r.rest() == input@, !r.limited(), !r.done() { unimplemented!() }
+    pub fn new(input: &'a str) -> (r: Self) ensures @@NEW_POST@@ { unimplemented!() }
     #[verifier::external_body]
     pub fn with_limit(self, limit: usize) -> (r: Self) ensures r.rest() == self.rest(), r.fuel() == self.fuel(), r.limited() == self.limited(), r.done() == self.done() { unimplemented!() }
     #[verifier::external_body]
     pub fn next(&mut self) -> (r: Option<Result<Token<'a>, Error>>)
         ensures
-            match r {
-                None => *final(self) == *old(self)
-                        && (old(self).limited() || (old(self).done() && old(self).rest() =~= Seq::<char>::empty())),
-                Some(Ok(t)) => old(self).rest() == t.data@ + final(self).rest() && final(self).fuel() < old(self).fuel()
-                        && !old(self).limited() && !final(self).limited() && !old(self).done() && (final(self).done() <==> t.kind is Eof)
-                        && tok_ok(t) && (t.kind is Eof ==> final(self).rest() =~= Seq::<char>::empty()),
-                Some(Err(e)) => old(self).rest() == e.data@ + final(self).rest() && final(self).fuel() < old(self).fuel()
-                        && !old(self).limited() && (final(self).limited() <==> e.is_limit) && !old(self).done() && !final(self).done()
-                        && (e.is_limit ==> e.data@ =~= Seq::<char>::empty()),
-            },
+@@NEXT_POST@@,
     { unimplemented!() }
 }
 
@@ -131,6 +122,10 @@ impl SyntaxTreeBuilder {
     pub fn start_node(&mut self, kind: SyntaxKind) ensures final(self).text() == old(self).text(), final(self).sig() == old(self).sig() { unimplemented!() }
     #[verifier::external_body]
     pub fn checkpoint(&self) -> RowanCheckpoint { unimplemented!() }
+    // no node is open (syntax_tree.rs keeps a depth counter); the tree SHAPE is not modelled, so the answer is unconstrained:
+    // both orders of "flush the queue" / "open the node" must satisfy the contracts
+    #[verifier::external_body]
+    pub fn is_at_root(&self) -> (r: bool) { unimplemented!() }
     #[verifier::external_body]
     pub fn new() -> (r: Self) ensures r.text() =~= Seq::<char>::empty(), r.sig() =~= Seq::<SyntaxKind>::empty() { unimplemented!() }
     // finish_*: hand the accumulated errors and limit trackers to the tree, unchanged (syntax_tree.rs; not extracted: rowan)
@@ -368,6 +363,8 @@ pub mod operation { pub use super::{operation_definition, operation_type}; }
 pub mod ty { pub use super::{ty, named_type, standalone_ty}; }
 pub mod value { pub use super::{value, default_value, enum_value, Constness}; }
 '''
+
+PRELUDE_2 = PRELUDE_2.replace('@@TOK_OK@@', TOK_OK).replace('@@NEXT_POST@@', NEXT_POST).replace('@@NEW_POST@@', NEW_POST)
 
 C = "final(self).conserved(old(self))"
 F = "final(self).fuel() <= old(self).fuel()"
@@ -642,7 +639,7 @@ UNIT = {
           hints=[("body_start", None, "broadcast use lemma_conserved_trans_auto;")]),
         P("start_node", [WF, ("ensures", "conserved", C), ("ensures", "fuel", F), KEEP, FLUSH, ("ensures", "ready", "final(self).ready()"), ("ensures", "eof_not_consumed", "!old(self).eof_consumed() ==> !final(self).eof_consumed()"), ("ensures", "no_significant_token_added", "final(self).builder.sig() == old(self).builder.sig()"), ("ensures", "tidy", "final(self).tidy()"),
                          ("ensures", "stops_at_significant", "final(self).current_token is Some ==> !ignored_kind(final(self).current_token->0.kind)")],
-          rewrites=BORROW + [("NodeGuard::new(self.builder.clone())", "NodeGuard::new_shim()", 1)],
+          rewrites=BORROW + [("NodeGuard::new(self.builder.clone())", "NodeGuard::new_shim()", 1), ("self.builder.borrow().is_at_root()", "self.builder.is_at_root()", 1)],
           hints=[("body_start", None, "broadcast use lemma_conserved_trans_auto;")]),
         P("start_root_node", [WF, ("ensures", "conserved", C), ("ensures", "fuel", F), KEEP, FLUSH, ("ensures", "ready", "final(self).ready()"), ("ensures", "eof_not_consumed", "!old(self).eof_consumed() ==> !final(self).eof_consumed()"), ("ensures", "no_significant_token_added", "final(self).builder.sig() == old(self).builder.sig()"), ("ensures", "tidy", "final(self).tidy()"),
                               ("ensures", "stops_at_significant", "final(self).current_token is Some ==> !ignored_kind(final(self).current_token->0.kind)")],
@@ -650,7 +647,8 @@ UNIT = {
           hints=[("body_start", None, "broadcast use lemma_conserved_trans_auto;")]),
         P("checkpoint_node", [WF, ("ensures", "conserved", C), ("ensures", "fuel", "final(self).fuel() == old(self).fuel()"),
                               ("ensures", "frame", "final(self).current_token == old(self).current_token && final(self).lexer == old(self).lexer && final(self).errors == old(self).errors && final(self).builder.sig() == old(self).builder.sig()")],
-          rewrites=[("self.builder.borrow().checkpoint()", "self.builder.checkpoint()", 1), ("Checkpoint::new(self.builder.clone(), checkpoint)", "Checkpoint::new_shim(checkpoint)", 1)]),
+          rewrites=[("self.builder.borrow().checkpoint()", "self.builder.checkpoint()", 1), ("Checkpoint::new(self.builder.clone(), checkpoint)", "Checkpoint::new_shim(checkpoint)", 1),
+                    ("self.builder.borrow().is_at_root()", "self.builder.is_at_root()", 1)]),
         P("expect_end_of_input", [WF, ("ensures", "conserved", C), ("ensures", "fuel", F), ("ensures", "no_significant_token_added", "final(self).builder.sig() == old(self).builder.sig()"),
                                   ("ensures", "tree_untouched_after_the_root_was_closed", "final(self).builder == old(self).builder", ["C01"]),
                                   ("ensures", "no_new_error_only_at_end_of_input", "(final(self).errors@.len() == old(self).errors@.len() && final(self).accept_errors) ==> final(self).at_end()"),
@@ -700,16 +698,15 @@ UNIT = {
         G(TY, "named_type", [GWF, ("ensures", "conserved", "final(p).conserved(old(p))"), ("ensures", "fuel", "final(p).fuel() <= old(p).fuel()")],
           hints=[("body_start", None, "broadcast use lemma_conserved_trans_auto;")]),
     
-        # standalone type: leading ignored tokens are dropped (no parent node exists for them), so the text is not
-        # conserved here (C02 is about documents); everything else is.
+        # standalone type: leading ignored tokens stay queued and are attached inside the root node when it is started
+        # (start_node / checkpoint_node are root-aware), so the text is conserved here too.
         G(TY, "standalone_ty", [GWF, ("requires", "fresh", "!old(p).eof_consumed()"),
-                                ("ensures", "advanced", "final(p).advanced(old(p))"), ("ensures", "fuel", "final(p).fuel() <= old(p).fuel()"),
+                                ("ensures", "conserved_except_the_known_finding_of_parse", "final(p).advanced(old(p))"), ("ensures", "fuel", "final(p).fuel() <= old(p).fuel()"),
+                                ("ensures", "leading_ignored_tokens_are_kept", "final(p).all_text() =~= old(p).all_text()", ["C02", "C11"]),
                                 ("ensures", "missing_type_is_reported", "final(p).builder.nsig() == old(p).builder.nsig() ==> (final(p).errors@.len() > old(p).errors@.len() || !final(p).accept_errors)", ["C07"]),
                                 ("ensures", "no_error_means_exactly_one_type", "final(p).clean_since(old(p)) ==> g_type(final(p).new_sig(old(p)))", ["C07"])],
-          hints=[("after", "p.skip_ignored();", "let ghost s1 = *p;"),
-                 ("after", "p.pending.clear();", "let ghost s2 = *p; proof { assert(s2.advanced(&s1)) by { lemma_conserved_refl(&s1); }; lemma_advanced_trans(&*old(p), &s1, &s2); }"),
-                 ("before", "Ok(_) => (),", "Ok(_) if false => (),") if False else ("body_end", None, "proof { }"),
-                 ]),
+          hints=[("body_start", None, "broadcast use lemma_conserved_trans_auto;"),
+                 ("after", "p.skip_ignored();", "let ghost s1 = *p;")]),
     
         G(SEL, "selection_set", [GWF, ("ensures", "conserved", "final(p).conserved(old(p))"), ("ensures", "fuel", "final(p).fuel() <= old(p).fuel()"),
                                  ("ensures", "progress", "old(p).at_kind(TokenKind::LCurly) ==> final(p).fuel() < old(p).fuel()"), ("decreases", None, "old(p).fuel(), 1int")],
